@@ -62,7 +62,9 @@ func (vt *ValTrack) Run(fn *ssa.Function, flags uint32) {
 		cut := false
 		for _, in := range s.b.Instrs {
 			if v, ok := in.(ssa.Value); ok && v == vt.Tracked {
-				mask = vt.universe()
+				if _, isPhi := v.(*ssa.Phi); !isPhi { // a phi takes its value on the incoming edge (below)
+					mask = vt.universe()
+				}
 			}
 			if vt.Visit != nil {
 				var c bool
@@ -115,6 +117,26 @@ func (vt *ValTrack) Run(fn *ssa.Function, flags uint32) {
 					continue
 				}
 			}
+			// the tracked value is a phi of succ: its value on this edge is the incoming operand
+			if phi, isPhi := vt.Tracked.(*ssa.Phi); isPhi && phi.Block() == succ {
+				for pi, pred := range succ.Preds {
+					if pred != s.b {
+						continue
+					}
+					in := phi.Edges[pi]
+					if in == ssa.Value(phi) {
+						break // unchanged
+					}
+					if c, ok := constBoolOrInt(in); ok {
+						if bit, known := vt.Consts[c]; known {
+							m2 = 1 << bit
+							break
+						}
+					}
+					m2 = vt.universe()
+					break
+				}
+			}
 			push(vtState{succ, m2, f2})
 		}
 	}
@@ -123,6 +145,12 @@ func (vt *ValTrack) Run(fn *ssa.Function, flags uint32) {
 // cmpTracked recognises `tracked == K` / `tracked != K` (either operand order).
 func (vt *ValTrack) cmpTracked(cond ssa.Value) (bit uint, eq bool, ok bool) {
 	v, neg := stripNot(cond)
+	if vt.Tracked != nil && v == vt.Tracked {
+		// a boolean tracked value used directly as the condition: `if v` means v == true (1)
+		if b, known := vt.Consts[1]; known {
+			return b, !neg, true
+		}
+	}
 	bo, isB := v.(*ssa.BinOp)
 	if !isB || (bo.Op != token.EQL && bo.Op != token.NEQ) {
 		return 0, false, false
@@ -162,4 +190,15 @@ func maskNames(mask uint32, names map[uint]string) []string {
 		}
 	}
 	return out
+}
+
+// constBoolOrInt: the value of a bool (false=0,true=1) or integer constant.
+func constBoolOrInt(v ssa.Value) (int64, bool) {
+	if c, ok := v.(*ssa.Const); ok && c.Value != nil && c.Value.Kind().String() == "Bool" {
+		if c.Value.String() == "true" {
+			return 1, true
+		}
+		return 0, true
+	}
+	return ConstIntOf(v)
 }
